@@ -3,7 +3,6 @@ package lexer
 import (
 	"errors"
 	"fmt"
-	"log"
 	"strings"
 
 	"github.com/paulsonkoly/calc/types/token"
@@ -151,6 +150,6 @@ func eol(c rune) str {
 }
 
 func eof(c rune) str {
-	log.Panicf("Lexer: %c character after end of input", c)
-	return str{}
+	// only reached when the input contains a NUL character, which newSTR takes for the end of input
+	return str{err: fmt.Errorf("Lexer: unexpected NUL character before %q", c)}
 }
